@@ -33,3 +33,6 @@ Proof. reflexivity. Qed.
 
 Lemma bridge_sower_exit : forall b, gen_sower_exit b = b.
 Proof. destruct b; reflexivity. Qed.
+
+Lemma bridge_reload_overrides : gen_reload_overrides_request = true.
+Proof. reflexivity. Qed.
